@@ -365,7 +365,7 @@ func c19Body(r *rand.Rand, aliasing bool, name string) []byte {
 		// body ENDS with a literal of the tree's source (markers that a detector looks for in front
 		// of the central directory or of the next header)
 		if d := lib.SourceDictionary(); len(d) > 0 {
-			if t := d[r.Intn(len(d))]; len(t) > 0 && len(t) <= 40 && !bytes.Contains(t, []byte("PK")) {
+			if t := d[r.Intn(len(d))]; len(t) > 0 && len(t) <= 40 && !bytes.Contains(t, []byte("PK\x03")) {
 				return append([]byte("body that ends with a marker: "), t...)
 			}
 		}
@@ -377,7 +377,7 @@ func c19Body(r *rand.Rand, aliasing bool, name string) []byte {
 		h := heads[r.Intn(len(heads))]
 		if r.Intn(3) == 0 {
 			if d := lib.SourceDictionary(); len(d) > 0 {
-				if t := d[r.Intn(len(d))]; len(t) > 0 && len(t) <= 40 && !bytes.Contains(t, []byte("PK")) {
+				if t := d[r.Intn(len(d))]; len(t) > 0 && len(t) <= 40 && !bytes.Contains(t, []byte("PK\x03")) {
 					h = t
 				}
 			}
@@ -434,6 +434,20 @@ func c19Special(c *fw.Ctx) {
 	big := make([]byte, 1100*1024)
 	for i := range big {
 		big[i] = byte(r.Intn(256))
+	}
+	// every literal of the tree's source at the very END of the last entry (stored with sizes, no
+	// descriptor: it sits right in front of the central directory), in a plain zip, a JAR and an ODT
+	for _, lit := range lib.SourceDictionary() {
+		if len(lit) < 3 || len(lit) > 40 || bytes.Contains(lit, []byte("PK\x03")) {
+			continue
+		}
+		body := append([]byte("payload that ends with a marker: "), lit...)
+		c19Judge(c, []c19Entry{{Name: "notes/readme.txt", Mode: 0, Body: []byte("x")}, {Name: "data.bin", Mode: 2, Body: body}}, "tail-literal")
+		if len(lit)%3 == 0 {
+			c19Judge(c, []c19Entry{{Name: "META-INF/MANIFEST.MF", Mode: 0, Body: []byte("Manifest-Version: 1.0\n")}, {Name: "a/B.class", Mode: 2, Body: body}}, "tail-literal")
+			c19Judge(c, []c19Entry{{Name: "mimetype", Mode: 2, Body: []byte("application/vnd.oasis.opendocument.text")}, {Name: "content.xml", Mode: 2, Body: body}}, "tail-literal")
+		}
+		c.Count("archives_ending_with_a_source_literal", 1)
 	}
 	if c.Tier == "thorough" || c.Rand.Intn(2) == 0 {
 		// one part of more than 16 MiB in front of the marker
